@@ -8,6 +8,9 @@ let valid_tbl : (int * int, int) Hashtbl.t = Hashtbl.create 64      (* (hash, pa
 let prop_tbl : (int * int, int) Hashtbl.t = Hashtbl.create 64       (* (height, round) -> index *)
 let mk_tbl : (int * int, (int * int) option) Hashtbl.t = Hashtbl.create 16
 let powers : z list ref = ref []
+(* set when the model asks for a proposer / created block the script did not declare: the line is
+   then marked so that it cannot agree with the implementation's *)
+let undeclared = ref false
 
 let valid h b =
   match Hashtbl.find_opt valid_tbl (int_of_n b.b_hash, int_of_n b.b_parts) with
@@ -17,12 +20,12 @@ let vals _ = !powers
 let proposer h r =
   match Hashtbl.find_opt prop_tbl (int_of_n h, int_of_n r) with
   | Some i -> n_of_int i
-  | None -> failwith (Printf.sprintf "proposer of (%d,%d) not declared" (int_of_n h) (int_of_n r))
+  | None -> undeclared := true; n_of_int 0
 let mkblock h r =
   match Hashtbl.find_opt mk_tbl (int_of_n h, int_of_n r) with
   | Some (Some (bh, bp)) -> Some { b_hash = n_of_int bh; b_parts = n_of_int bp }
   | Some None -> None
-  | None -> failwith (Printf.sprintf "createProposalBlock at (%d,%d) not declared" (int_of_n h) (int_of_n r))
+  | None -> undeclared := true; None
 
 let step_of_int = function
   | 1 -> SNewHeight | 2 -> SNewRound | 3 -> SPropose | 4 -> SPrevote | 5 -> SPrevoteWait
@@ -61,7 +64,8 @@ let () =
   let nn = n_of_string in
   let do_step i =
     let (s', outs) = step valid vals proposer mkblock !cfg !me !st i in
-    st := s'; print_endline (obs s' outs) in
+    st := s';
+    print_endline (obs s' outs ^ (if !undeclared then " UNDECLARED" else "")); undeclared := false in
   let rec loop () =
     match input_line stdin with
     | exception End_of_file -> ()
